@@ -20,11 +20,12 @@ func (c *Config) mode() string {
 
 const inf = 1 << 30
 
+// failK: number of leading attempts that fail (creation failures come first, then failing processes).
 func failK(s *StepCfg) int {
 	if s.Fail < 0 {
 		return inf
 	}
-	return s.Fail
+	return s.Fail + s.CreateFail
 }
 
 func limitOf(s *StepCfg) int {
@@ -56,6 +57,12 @@ func (x *Exec) perStep() map[string]*stepTrace {
 			get(e.Step).creates = append(get(e.Step).creates, i)
 		case "start":
 			get(e.Step).starts = append(get(e.Step).starts, i)
+		case "createfail":
+			// an attempt that failed before a process existed: it began and ended (unsuccessfully) at once
+			st := get(e.Step)
+			st.starts = append(st.starts, i)
+			st.ends = append(st.ends, i)
+			st.endOK = append(st.endOK, false)
 		case "end":
 			st := get(e.Step)
 			st.ends = append(st.ends, i)
